@@ -1,4 +1,4 @@
-import OjgVerif.JPMut.LemmasRemove
+import OjgVerif.JPMut.LemmasFrame
 import OjgVerif.JPMut.LemmasAll
 /-! # C13 — Path mutations touch exactly the selected locations
 
@@ -11,13 +11,17 @@ selected locations are those of the shared path denotation `JPath.eval` (what Ge
   mutator, every path, all/One, simple and gen data.
 * `C13_full_false` — it is false for the code as it is (`Dev.current`); `witness_*`: one kernel-evaluated
   witness per deviation, each with the verdict of the model with that deviation off.
-* `modify_eq`, `modify_hit`, `modify_frame`, `remove_eq`, `remove_gone_key`, `remove_shift` — the `_partial`
-  theorems, for ANY deviation set: Modify and Remove on simple data and paths without recursive descent do
-  exactly what the specification says, excluding exactly the named predicates: a union that lists a member
-  of the data twice, a slice whose reading by the code selects other indexes than the specification on an
-  array it meets (for `Dev.fixed` no slice is excluded), the reflect branch of a filter on a map
-  (`filterMapNil`), `$` on a root that is not a container (`rootScalar`), a from-the-end index in the
-  union of a Remove (`removeUnionNeg`).
+* `C13_partial`, and behind it `set_eq`, `del_eq`, `modify_eq`, `remove_eq` with their corollaries
+  (`set_hit`, `set_frame`, `del_frame`, `del_gone_key`, `del_null_idx`, `modify_hit`, `modify_frame`,
+  `remAll_gone_key`, `remArr_shift`, `remArr_length`) — the `_partial` theorems, for ANY deviation set:
+  Set, Del, Modify and Remove (all matches) on simple data and paths without recursive descent leave exactly
+  the tree the specification names — the new value at the selected locations and in the members created
+  along name/index chains, selected object members gone, selected array elements null (Del) or removed
+  with exact shifting (Remove), everything else untouched — whenever they report no error, excluding exactly
+  the named predicates: a union that lists a member of the data twice, a slice whose reading by the code
+  selects other indexes than the specification on an array it meets (for `Dev.fixed` no slice is excluded),
+  the reflect branch of a filter on a map (`filterMapNil`), `$` on a root that is not a container
+  (`rootScalar`), a from-the-end index in the union of a Remove (`removeUnionNeg`).
 * `reported_*` — error-not-fault for every path (descent and filters included): with `genUnionOOB` off
   no entry point ends in a run-time fault; Modify/Remove never do.
 * `gen_*` — with `genUnionOOB` / `genModifyNil` off the mutators do on gen data what they do on simple
@@ -292,6 +296,93 @@ example : NoDescent ([Frag.wild] ++ [.nth 0]) ∧ GoodPath Dev.current [.wild] (
   intro f hf; simp at hf; rcases hf with rfl | rfl <;> rfl
 
 example : removeM false Dev.current false [.wild, .nth 0] (.arr [ints [1, 2], ints [3]]) = .ok (.arr [ints [2], ints []]) := by rfl
+
+/-! ## the partial theorems: Del -/
+
+/-- Del, all matches, simple data, a path without recursive descent: if no error is reported the data afterwards
+is the input with the selected object members gone and the selected array elements null (`delAll (locs x d) d`) -/
+theorem del_eq (dev : Dev) (x : List Frag) (d d' : JV) (hnd : NoDescent x) (hw : WF d) (hg : GoodPathS dev x d)
+    (h : setM false dev false .del x d = .ok d') : d' = delSpec x d :=
+  delM_eq dev x d d' hnd hw hg h
+
+/-- frame of Del: every location that is not at, above or below a selected location holds what it held -/
+theorem del_frame (dev : Dev) (x : List Frag) (d d' : JV) (hnd : NoDescent x) (hw : WF d) (hg : GoodPathS dev x d)
+    (h : setM false dev false .del x d = .ok d') : Frame (locs x d) d d' := by
+  rw [del_eq dev x d d' hnd hw hg h]
+  intro q hq
+  exact delAll_frame q (locs x d) d hq
+
+/-- a selected object member is gone (one level; deeper levels by `delAll`'s recursion and `del_frame`) -/
+theorem del_gone_key (T : List Path) (k : Bytes) (kvs : List (Bytes × JV)) (h : [Loc.key k] ∈ T) :
+    child? (.key k) (delAll T (.obj kvs)) = none := delAll_gone_key T k kvs h
+
+/-- a selected array element is null: the array keeps its length -/
+theorem del_null_idx (T : List Path) (i : Nat) (xs : List JV) (x : JV) (hx : xs[i]? = some x) (h : [Loc.idx i] ∈ T) :
+    child? (.idx i) (delAll T (.arr xs)) = some .null := delAll_null_idx T i xs x hx h
+
+example : setM false Dev.current false .del [.wild, .child kA] (.arr [objA 1, .obj [(kB, .int 2)]]) =
+    .ok (.arr [.obj [], .obj [(kB, .int 2)]]) := by rfl
+
+/-! ## the partial theorems: Set -/
+
+/-- Set, all matches, simple data, a path without recursive descent: if no error is reported the data afterwards
+is `setSpec x v d`: the new value at every selected location, the members the path names but does not find
+created along name/index chains (`creates`), everything else as it was -/
+theorem set_eq (dev : Dev) (v : JV) (x : List Frag) (d d' : JV) (hnd : NoDescent x) (hw : WF d) (hg : GoodPathS dev x d)
+    (h : setM false dev false (.val v) x d = .ok d') : d' = setSpec x v d :=
+  setM_eq dev v x d d' hnd hw hg h
+
+/-- hit: afterwards every selected location holds the new value -/
+theorem set_hit (dev : Dev) (v : JV) (x : List Frag) (d d' : JV) (hnd : NoDescent x) (hw : WF d) (hg : GoodPathS dev x d)
+    (h : setM false dev false (.val v) x d = .ok d') : ∀ p ∈ locs x d, valAt p d' = some v := by
+  rw [set_eq dev v x d d' hnd hw hg h]
+  intro p hp
+  exact setSpec_hit v x hnd d hw p hp (alone_of_noDescent x hnd d hw p hp)
+
+/-- frame: every location that exists and is not at, above or below a selected location or a created member holds
+what it held -/
+theorem set_frame (dev : Dev) (v : JV) (x : List Frag) (d d' : JV) (hnd : NoDescent x) (hw : WF d) (hg : GoodPathS dev x d)
+    (h : setM false dev false (.val v) x d = .ok d') (q : Path) (c : JV) (hv : valAt q d = some c)
+    (h1 : touched (locs x d) q = false) (h2 : touched ((creates v x d).map (·.1)) q = false) : valAt q d' = some c := by
+  rw [set_eq dev v x d d' hnd hw hg h]
+  exact setSpec_frame v x d c q hv h1 h2
+
+/-- creation along a name/index chain, the code as it is: `Set $.a.b[2]` on `{}` -/
+example : setM false Dev.current false (.val (.int 9)) [.child kA, .child kB, .nth 2] (.obj []) =
+    .ok (.obj [(kA, .obj [(kB, .arr [.null, .null, .int 9])])]) := by rfl
+
+example : setSpec [.child kA, .child kB, .nth 2] (.int 9) (.obj []) = .obj [(kA, .obj [(kB, .arr [.null, .null, .int 9])])] := by rfl
+
+/-- a non-trivial instance of the hypotheses of `set_eq`/`del_eq`, the code as it is: `$[*].a` on `[{"a":1},{"b":2}]` -/
+example : NoDescent [.wild, .child kA] ∧ GoodPathS Dev.current [.wild, .child kA] (.arr [objA 1, .obj [(kB, .int 2)]]) := by
+  refine ⟨?_, trivial, fun _ _ => ⟨trivial, fun _ _ => trivial⟩⟩
+  intro f hf; simp at hf; rcases hf with rfl | rfl <;> rfl
+
+/-! ## the four mutators together -/
+
+/-- the predicates excluded for the mutation `op` on `(x, d)` -/
+def Good (dev : Dev) (x : List Frag) (d : JV) : Op → Prop
+  | .set _ => GoodPathS dev x d
+  | .del => GoodPathS dev x d
+  | .mod _ => GoodPath dev x d ∧ ¬ (x = [] ∧ dev.rootScalar = true ∧ isContainer d = false)
+  | .rem => ∃ sx f, x = sx ++ [f] ∧ GoodPath dev sx d ∧ RemPath dev f sx d
+
+/-- C13 (all matches, simple data, paths without recursive descent) for every deviation set, outside the excluded
+predicates: a mutator that reports no error leaves exactly the tree the specification names -/
+theorem C13_partial (dev : Dev) (op : Op) (x : List Frag) (d d' : JV) (hnd : NoDescent x) (hw : WF d) (hg : Good dev x d op)
+    (h : runModel false dev false x d op = .ok d') : d' = expected x d op := by
+  cases op with
+  | set v => exact set_eq dev v x d d' hnd hw hg h
+  | del => exact del_eq dev x d d' hnd hw hg h
+  | mod m =>
+    simp only [runModel, modify_eq dev m x d hnd hw hg.1 hg.2] at h
+    injection h with h
+    exact h.symm
+  | rem =>
+    obtain ⟨sx, f, rfl, h1, h2⟩ := hg
+    simp only [runModel, remove_eq dev sx f d hnd hw h1 h2] at h
+    injection h with h
+    exact h.symm
 
 /-! ## error, not fault -/
 
